@@ -48,11 +48,14 @@ PROGRAM = """(set 'counter 0)
 (defun op-mapsort () (car (map 'list (lambda (x) (stable-sort < x)) (nested))))
 (defun op-threadlast () (thread-last counter (+ 0) (list 7 8)))
 (defun op-foldsort () (foldl (lambda (acc x) (stable-sort < x)) () (nested)))
+(set 'mode-seen (mode-now))
+(defun op-setflag () (set 'expansion-flag 1))
+(defun op-readmode () mode-seen)
 """
 FORM = {"slicelist": "(op-slicelist)", "quotecmp": "(op-quotecmp)", "slicefull": "(op-slicefull)", "slicetail": "(op-slicetail)", "slicecdr": "(op-slicecdr)", "sort": "(op-sort)", "cdrsort": "(op-cdrsort)", "slicepush": "(op-slicepush)", "append0": "(op-append0)", "restsort": "(op-restsort)",
         "macroarg": "(op-macroarg)", "define": "(op-define)", "read": "(op-read)", "reload": "(reload)",
         "applyrest": "(op-applyrest)", "applycdr": "(op-applycdr)", "applyreq": "(op-applyreq)", "funcallopt": "(op-funcallopt)",
-        "mapsort": "(op-mapsort)", "foldsort": "(op-foldsort)", "hostwiden": "(host-widen)", "hostcall": "(host-call)", "threadlast": "(op-threadlast)"}
+        "mapsort": "(op-mapsort)", "foldsort": "(op-foldsort)", "hostwiden": "(host-widen)", "hostcall": "(host-call)", "threadlast": "(op-threadlast)", "setflag": "(op-setflag)", "readmode": "(op-readmode)"}
 CFG = """SPECIFICATION Spec
 CONSTANTS R = %d
  LEN = %d
@@ -65,7 +68,7 @@ CHECK_DEADLOCK FALSE
 
 def show(model_result, op):
     """the printed form the real interpreter gives for a model result"""
-    if op in ("define", "reload", "hostwiden", "hostcall"):
+    if op in ("define", "reload", "hostwiden", "hostcall", "setflag", "readmode"):
         return str(model_result[0])
     if op == "slicepush":
         return "(vector %s)" % " ".join(str(x) for x in model_result)
@@ -106,9 +109,20 @@ def _run(V, work, tier):
     if r3.error:
         raise MachineryError("Shared simulation failed: " + r3.error)
     V.coverage.setdefault("tlc_runs", []).append({"what": "Shared simulation R=3 LEN=3", "printed": len(r3.lines)})
+    # one runtime, scripts of 3, exhaustive: the histories around a RELOAD (what a load leaves behind in the runtime must not
+    # change what the next load of the same Program does - each load behaves like a fresh parse)
+    r1 = run_tlc(work, "Shared", CFG % (1, 3, "TRUE", "TRUE"), timeout=1200)
+    V.tlc(r1, "Shared exhaustive: 1 runtime x all scripts of 3 operations")
+    if r1.violated:
+        raise MachineryError("Shared invariant violated inside the specification (R=1):\n" + r1.raw[-2500:])
+    hist3 = [b for b in r1.lines if "reload" in b["scripts"][0][:2]]
+    stateful = [b for b in hist3 if {"setflag", "readmode"} <= set(b["scripts"][0]) or {"define", "threadlast"} <= set(b["scripts"][0])]
+    rest3 = [b for b in hist3 if b not in stateful]
+    hist3 = stateful + rnd.sample(rest3, min(len(rest3), 3000 if thorough else 500))
+    V.coverage["reload_histories"] = len(hist3)
     # TLC has checked every behaviour; the replay takes a sample (all of them took 25 minutes)
     behaviours = rnd.sample(behaviours, min(len(behaviours), 120000 if thorough else 1500))
-    behaviours = behaviours + r3.lines
+    behaviours = behaviours + r3.lines + hist3
     recs = []
     for i, b in enumerate(behaviours):
         recs.append({"id": i, "program": PROGRAM, "scripts": [[FORM[o] for o in sc] for sc in b["scripts"]], "sched": b["sched"], "loads": 1})
